@@ -334,11 +334,12 @@ def oracle(item, impl):
         return None          # mis-nested markup: a browser re-parents, hydration may legitimately fail
     if len(impl) >= 2 and impl[1] == [-1]:
         return "markup outside the parser subset"
-    if len(impl) < 8:
+    if len(impl) < 6:
         if len(impl) == 3 and impl[2] == [0]:
             return "hydration failed: a node of the expected kind was not found where the walk looked for it"
         return "malformed observation"
-    _html, _tree, hyd, same, touched, csr_eq, perturbed_ok, rebuild_ok = impl[:8]
+    _html, _tree, hyd, same, touched, csr_eq = impl[:6]
+    perturbed_ok, rebuild_ok = (impl[6], impl[7]) if len(impl) >= 8 else (0, 0)
     if hyd[0] != 1:
         return "hydration failed"
     if same != 1:
@@ -437,7 +438,7 @@ def coverage_extra(results):
     names = {0: "text", 1: "unit", 2: "element", 3: "void", 4: "tuple", 5: "some", 6: "none", 7: "left", 8: "right",
              9: "vec", 10: "any", 11: "keyed", 12: "inert", 13: "integer"}
     return {"view_nodes_by_kind": {names.get(k, str(k)): n for k, n in sorted(feats.items())},
-            "hydration_succeeded": sum(1 for r in results if not isinstance(r["impl"], str) and len(r["impl"]) >= 8)}
+            "hydration_succeeded": sum(1 for r in results if not isinstance(r["impl"], str) and len(r["impl"]) >= 6)}
 
 
 LEVEL_TEXT = ("Coq proofs, for all well-nested views of the combinator grammar (text incl. empty/adjacent, elements with "
